@@ -65,10 +65,13 @@ pub mod stdspec {
             #[trigger] <&[u8] as vstd::std_specs::cmp::PartialEqSpec<&[u8]>>::eq_spec(&a, &b) == (a@ == b@),
             <&[u8] as vstd::std_specs::cmp::PartialEqSpec<&[u8]>>::obeys_eq_spec(),
     { admit(); }
-    pub broadcast proof fn axiom_slice_vec_eq(a: &[u8], b: Vec<u8>)
-        ensures
-            #[trigger] <&[u8] as vstd::std_specs::cmp::PartialEqSpec<Vec<u8>>>::eq_spec(&a, &b) == (a@ == b@),
-            <&[u8] as vstd::std_specs::cmp::PartialEqSpec<Vec<u8>>>::obeys_eq_spec(),
+    // `&[T] == Vec<U>` (alloc::vec::partial_eq): element-wise; stated for octets
+    pub uninterp spec fn slice_vec_eq_ok<T, U, A: core::alloc::Allocator>(a: &[T], b: &Vec<U, A>, r: bool) -> bool;
+    pub assume_specification<'a, T: PartialEq<U>, U, A: core::alloc::Allocator> [<&'a [T] as PartialEq<Vec<U, A>>>::eq] (a: &&'a [T], b: &Vec<U, A>) -> (r: bool)
+        ensures slice_vec_eq_ok(*a, b, r);
+    pub broadcast proof fn axiom_slice_vec_eq(a: &[u8], b: &Vec<u8>, r: bool)
+        requires #[trigger] slice_vec_eq_ok(a, b, r)
+        ensures r == (a@ == b@)
     { admit(); }
 
     // Rust language invariant: no slice is longer than isize::MAX octets
